@@ -110,6 +110,15 @@ def extract(tree):
     d["pushExtraBeforeCopy"] = bool(re.search(r"janet_buffer_extra\s*\(\s*buffer\s*,\s*length\s*\)\s*;\s*memcpy\s*\(\s*buffer->data\s*\+\s*buffer->count\s*,\s*string\s*,\s*length\s*\)\s*;\s*buffer->count\s*\+=\s*length\s*;", pb))
     if not d["pushExtraBeforeCopy"]:
         raise ExtractError("C17: janet_buffer_push_bytes no longer has the shape extra / memcpy / count += length")
+    # range: is the element count still guarded by an aborting assertion, or corrected by the bump loops?
+    corelib = strip_comments(read(tree, "src/core/corelib.c"))
+    rg = core_fn_body(corelib, "janet_core_range")
+    _need(re.search(r"count\s*=\s*\(\s*step\s*>\s*0\s*\)\s*\?\s*\(\s*stop\s*-\s*start\s*\)\s*/\s*step\s*:\s*\(\s*\(\s*step\s*<\s*0\s*\)\s*\?\s*\(\s*stop\s*-\s*start\s*\)\s*/\s*step\s*:\s*0\s*\)\s*;", rg),
+          "the element count expression of range")
+    _need(re.search(r"int_count\s*=\s*\(int32_t\)\s*ceil\s*\(\s*count\s*\)\s*;", rg), "ceil(count) in range")
+    d["rangePostAssert"] = bool(re.search(r"janet_assert\s*\(\s*start\s*\+\s*int_count\s*\*\s*step", rg))
+    d["rangeBump"] = bool(re.search(r"while\s*\(\s*int_count\s*<\s*INT32_MAX\s*&&\s*start\s*\+\s*int_count\s*\*\s*step\s*<\s*stop\s*\)\s*int_count\+\+\s*;", rg)
+                          and re.search(r"while\s*\(\s*int_count\s*<\s*INT32_MAX\s*&&\s*start\s*\+\s*int_count\s*\*\s*step\s*>\s*stop\s*\)\s*int_count\+\+\s*;", rg))
     return d
 
 
@@ -137,6 +146,10 @@ def render(tree):
          "abbrev pushSelfGuard : Bool := %s" % b(d["pushSelfGuard"]),
          "/-- buffer/blit re-fetches the source pointer and uses memmove when src is dest -/",
          "abbrev blitSelfGuard : Bool := %s" % b(d["blitSelfGuard"]),
+         "/-- corelib.c range: an aborting `janet_assert(start + int_count * step >=/<= stop)` follows the count computation -/",
+         "abbrev rangePostAssert : Bool := %s" % b(d["rangePostAssert"]),
+         "/-- corelib.c range: the count is corrected upwards while `start + int_count * step` is still before `stop` -/",
+         "abbrev rangeBump : Bool := %s" % b(d["rangeBump"]),
          "", "end JanetModel.Gen.Lib", ""]
     return "\n".join(L)
 
